@@ -420,3 +420,112 @@ func ruleR07k(c *Ctx) {
 	}
 	c.floor("R07k", "places where a reference's key is recorded as a param use", 1, n)
 }
+
+// R07m: the soydoc recorded for a template is the node immediately before the template in its file, or a
+// fresh empty one: the value stored in the Template record is defined only by asserting Body[i-1] (i being
+// the template's own index), by a new SoyDocNode literal, or by a helper whose every return is one of these.
+// A search further back hands one template the (mutable) soydoc of another.
+func ruleR07m(c *Ctx) {
+	p := c.pkg("template")
+	fd := c.mustFunc("template", "Registry.Add")
+	if p == nil || fd == nil {
+		return
+	}
+	info := p.TypesInfo
+	isDoc := func(t types.Type) bool {
+		_, tn, ok := relPkgOfType(t)
+		return ok && tn == "SoyDocNode"
+	}
+	var okExpr func(e ast.Expr, depth int) (bool, string)
+	okExpr = func(e ast.Expr, depth int) (bool, string) {
+		e = ast.Unparen(e)
+		switch x := e.(type) {
+		case *ast.Ident:
+			if x.Name == "nil" {
+				return true, ""
+			}
+		case *ast.UnaryExpr:
+			if _, ok := x.X.(*ast.CompositeLit); ok {
+				return true, ""
+			}
+		case *ast.CompositeLit:
+			return true, ""
+		case *ast.TypeAssertExpr:
+			if ix, ok := ast.Unparen(x.X).(*ast.IndexExpr); ok {
+				if be, ok := ast.Unparen(ix.Index).(*ast.BinaryExpr); ok && be.Op == token.SUB && exprKey(be.Y) == "1" {
+					if _, ok := ast.Unparen(be.X).(*ast.Ident); ok {
+						return true, ""
+					}
+				}
+			}
+			return false, exprKey(e) + " is not the element just before the template"
+		case *ast.CallExpr:
+			if depth > 0 {
+				return false, "nested helper " + exprKey(x.Fun)
+			}
+			cal := calleeFunc(x, info)
+			for _, hd := range c.allFuncDecls("template") {
+				if fn, _ := info.Defs[hd.Name].(*types.Func); fn != nil && fn == cal {
+					good, why := true, ""
+					ast.Inspect(hd.Body, func(y ast.Node) bool {
+						if r, ok := y.(*ast.ReturnStmt); ok && len(r.Results) >= 1 {
+							if g, w := okExpr(r.Results[0], depth+1); !g {
+								good = false
+								if w == "" {
+									w = exprKey(r.Results[0])
+								}
+								why = cal.Name() + " returns " + w
+							}
+						}
+						return true
+					})
+					return good, why
+				}
+			}
+			return false, "call to " + exprKey(x.Fun)
+		}
+		return false, exprKey(e)
+	}
+	n := 0
+	ast.Inspect(fd.Body, func(x ast.Node) bool {
+		var lhs, rhs []ast.Expr
+		switch s := x.(type) {
+		case *ast.AssignStmt:
+			lhs, rhs = s.Lhs, s.Rhs
+		case *ast.ValueSpec:
+			for _, nm := range s.Names {
+				lhs = append(lhs, nm)
+			}
+			rhs = s.Values
+		default:
+			return true
+		}
+		if len(rhs) == 0 {
+			return true
+		}
+		for i, l := range lhs {
+			id, ok := l.(*ast.Ident)
+			if !ok {
+				continue
+			}
+			o := info.Defs[id]
+			if o == nil {
+				o = info.Uses[id]
+			}
+			if o == nil || !isDoc(o.Type()) {
+				continue
+			}
+			r := rhs[0]
+			if len(rhs) == len(lhs) {
+				r = rhs[i]
+			}
+			n++
+			good, why := okExpr(r, 0)
+			c.check(good, "R07m", fmt.Sprintf("template.Registry.Add soydoc-definition#%d", n), x.Pos(),
+				"the template's soydoc is the node just before it, or a fresh empty one",
+				"the soydoc recorded for a template is taken from "+why+": a template without a comment of its own can be given (and will extend, when it has header params) the soydoc of another template, whose params it then inherits")
+		}
+		return true
+	})
+	c.floor("R07m", "definitions of the template's soydoc in Registry.Add", 2, n)
+}
